@@ -160,7 +160,25 @@ fn rt_models(driver: &Driver, schemas: &[SchemaJ], seed: u64, per_model: u64, on
             let mut rng = Rng::derive(seed, &format!("c15.rt.models/{}", name), case);
             let mut g = Gen::new(schemas, true);
             let tolerant = rng.chance(1, 4);
-            let Some(p) = g.model_value(&mut rng, sc, arg.as_ref(), 3) else {
+            // enums: every variant in turn (and, with an `other` variant, names that are not listed), then random
+            let enum_case: Option<Primitive> = if sc.kind == "struct" { None } else {
+                let listed: Vec<&VariantJ> = sc.variants.iter().filter(|v| !v.other).collect();
+                let c = case as usize;
+                if c < listed.len() {
+                    st.count("enum-variant=listed");
+                    Some(if sc.kind == "int_enum" { Primitive::Integer(listed[c].disc.unwrap() as i32) } else { name_prim(&listed[c].name) })
+                } else if c < listed.len() + 2 && sc.variants.iter().any(|v| v.other) {
+                    st.count("enum-variant=other");
+                    Some(name_prim(&format!("Unlisted{}", c)))
+                } else {
+                    None
+                }
+            };
+            if sc.kind != "struct" && enum_case.is_none() && case as usize > sc.variants.len() + 2 {
+                break;
+            }
+            let generated = match enum_case { Some(p) => Some(p), None => g.model_value(&mut rng, sc, arg.as_ref(), 3) };
+            let Some(p) = generated else {
                 st.count(&format!("skipped-model-needs-unmodelled-leaf={}", name));
                 break;
             };
@@ -387,7 +405,10 @@ fn oracle_laws(schemas: &[SchemaJ], seed: u64, per_model: u64, only: Option<(u64
                 break;
             };
             let missing = HashMap::new();
-            let mut v = RtVisitor { prim: &p, objs: &g.objs, missing: &missing, tolerant: false, out: None, read_only: None };
+            // well-typed input: strict and tolerant mode must agree; alternate
+            let tolerant = case % 2 == 1;
+            l1.count(if tolerant { "mode=tolerant" } else { "mode=strict" });
+            let mut v = RtVisitor { prim: &p, objs: &g.objs, missing: &missing, tolerant, out: None, read_only: None };
             visit_model(name, &mut v);
             let Some(res) = v.out else { continue };
             let key = format!("{} {}", name, show_plain(&p));
@@ -564,6 +585,41 @@ fn oracle_handwritten(seed: u64, n: u64, only: Option<u64>) -> Oracle {
         law1_value(&mut or, "Action", "Goto(Named(chapter1)) [D37 witness]", &a, &objs, json!({"oracle": "c15.law1.handwritten", "witness": "D37", "seed": seed, "case": 0}));
         let d = Dest { page: Some(Ref::from_id(3)), view: DestView::Fit };
         law1_value(&mut or, "Action", "Goto(Direct([3 0 R /Fit])) [D37 witness]", &Action::Goto(MaybeNamedDest::Direct(d)), &objs, json!({"oracle": "c15.law1.handwritten", "witness": "D37", "seed": seed, "case": 0}));
+    }
+    // every filter kind once, alone and behind an ASCII filter (variant list: Generated/Dispatch.lean `d_StreamFilter`)
+    if only.is_none() {
+        use pdf::enc::*;
+        let j: serde_json::Value = serde_json::from_str(support::typed::SCHEMAS_JSON).unwrap();
+        let kinds: Vec<String> = j["dispatch"].as_array().cloned().unwrap_or_default().iter().filter(|d| d["value_enum"] == "StreamFilter")
+            .flat_map(|d| d["variants"].as_array().cloned().unwrap_or_default()).map(|v| v.as_str().unwrap_or("").to_string()).collect();
+        if kinds.is_empty() {
+            or.fail("sweep:unswept-enum:StreamFilter", "no StreamFilter dispatch in the registry", json!({"oracle": "c15.law1.handwritten"}));
+        }
+        for k in &kinds {
+            let lz = LZWFlateParams { predictor: 12, n_components: 3, bits_per_component: 8, columns: 7, early_change: 0 };
+            let f = match k.as_str() {
+                "ASCIIHexDecode" => StreamFilter::ASCIIHexDecode,
+                "ASCII85Decode" => StreamFilter::ASCII85Decode,
+                "LZWDecode" => StreamFilter::LZWDecode(lz),
+                "FlateDecode" => StreamFilter::FlateDecode(lz),
+                "JPXDecode" => StreamFilter::JPXDecode,
+                "DCTDecode" => StreamFilter::DCTDecode(DCTDecodeParams { color_transform: Some(1) }),
+                "CCITTFaxDecode" => StreamFilter::CCITTFaxDecode(CCITTFaxDecodeParams { k: -1, end_of_line: true, encoded_byte_align: false, columns: 100, rows: 3, end_of_block: false, black_is_1: true, damaged_rows_before_error: 2 }),
+                "JBIG2Decode" => StreamFilter::JBIG2Decode(JBIG2DecodeParams { globals: None }),
+                "Crypt" => StreamFilter::Crypt,
+                "RunLengthDecode" => StreamFilter::RunLengthDecode,
+                other => {
+                    or.fail(&format!("sweep:unswept-variant:StreamFilter:{}", other), &format!("filter kind {} is not covered by the sweep", other), json!({"oracle": "c15.law1.handwritten"}));
+                    continue;
+                }
+            };
+            law1_stream(&mut or, &format!("[{}]", k), vec![f.clone()], vec![1, 2, 3], json!({"oracle": "c15.law1.handwritten", "type": "Stream", "filter": k, "seed": seed, "case": 0}));
+            law1_stream(&mut or, &format!("[ASCII85Decode, {}]", k), vec![StreamFilter::ASCII85Decode, f], vec![1, 2, 3], json!({"oracle": "c15.law1.handwritten", "type": "Stream", "filter": k, "seed": seed, "case": 0}));
+        }
+        for rel in [TimeRel::Earlier, TimeRel::Later, TimeRel::Universal] {
+            let d = Date { year: 2024, month: 2, day: 29, hour: 23, minute: 59, second: 58, rel, tz_hour: 5, tz_minute: 30 };
+            law1_value(&mut or, "Date", &format!("{:?}", d), &d, &objs, json!({"oracle": "c15.law1.handwritten", "type": "Date", "seed": seed, "case": 0}));
+        }
     }
     for case in 0..n {
         if let Some(c) = only {
@@ -769,6 +825,404 @@ fn oracle_handwritten(seed: u64, n: u64, only: Option<u64>) -> Oracle {
     or
 }
 
+
+// ---------------------------------------------------------------------------------------------------
+// sweep over every variant of the hand-written tag dispatch (variant lists from the translator)
+
+enum SweepInput {
+    /// a primitive read through the in-memory resolver
+    Prim(Primitive, HashMap<u64, Primitive>),
+    /// object `target` of a generated document (stream objects can only come out of a parsed file)
+    Doc { objs: HashMap<u64, Primitive>, streams: HashMap<u64, (Dictionary, Vec<u8>)>, target: u64 },
+}
+
+struct SweepCase {
+    desc: String,
+    /// Rust type the input is read as
+    ty: &'static str,
+    input: SweepInput,
+}
+
+fn dict_of(entries: &[(&str, Primitive)]) -> Dictionary {
+    let mut d = Dictionary::new();
+    for (k, v) in entries {
+        d.insert(*k, v.clone());
+    }
+    d
+}
+fn pd(entries: &[(&str, Primitive)]) -> Primitive {
+    Primitive::Dictionary(dict_of(entries))
+}
+fn arr(xs: Vec<Primitive>) -> Primitive {
+    Primitive::Array(xs)
+}
+fn rf(id: u64) -> Primitive {
+    Primitive::Reference(PlainRef { id, gen: 0 })
+}
+fn int(i: i32) -> Primitive {
+    Primitive::Integer(i)
+}
+fn num(f: f32) -> Primitive {
+    Primitive::Number(f)
+}
+
+fn font_descriptor(rng: &mut Rng) -> Primitive {
+    let mut d = dict_of(&[
+        ("Type", name_prim("FontDescriptor")),
+        ("FontName", name_prim(*rng.pick(NAMES))),
+        ("Flags", int(rng.below(1 << 18) as i32)),
+        ("FontBBox", arr((0..4).map(|_| rand_number(rng)).collect())),
+        ("ItalicAngle", rand_number(rng)),
+    ]);
+    if rng.chance(1, 2) {
+        d.insert("Ascent", rand_number(rng));
+    }
+    Primitive::Dictionary(d)
+}
+
+fn cid_font(rng: &mut Rng, subtype: &str) -> Dictionary {
+    let mut d = dict_of(&[
+        ("Type", name_prim("Font")),
+        ("Subtype", name_prim(subtype)),
+        ("BaseFont", name_prim(*rng.pick(NAMES))),
+        ("CIDSystemInfo", pd(&[("Registry", str_prim(b"Adobe")), ("Ordering", str_prim(b"Identity")), ("Supplement", int(0))])),
+        ("FontDescriptor", font_descriptor(rng)),
+    ]);
+    if rng.chance(1, 2) {
+        d.insert("DW", rand_number(rng));
+    }
+    if rng.chance(1, 2) {
+        d.insert("W", arr(vec![int(1), arr(vec![rand_number(rng), rand_number(rng)])]));
+    }
+    if rng.chance(1, 2) {
+        d.insert("CIDToGIDMap", name_prim("Identity"));
+    }
+    d
+}
+
+fn function2() -> Primitive {
+    pd(&[("FunctionType", int(2)), ("Domain", arr(vec![num(0.0), num(1.0)])), ("N", num(1.0)), ("C0", arr(vec![num(0.0)])), ("C1", arr(vec![num(1.0)]))])
+}
+
+/// inputs for tag `tag` of the dispatch on value enum `en`; None: this sweep does not know the tag (reported)
+fn sweep_inputs(en: &str, tag: &str, rng: &mut Rng) -> Option<Vec<SweepCase>> {
+    let mut out = vec![];
+    let none = HashMap::new;
+    match en {
+        "FontData" => match tag {
+            "Type1" | "TrueType" => {
+                for with_widths in [false, true] {
+                    let mut d = dict_of(&[("Type", name_prim("Font")), ("Subtype", name_prim(tag)), ("BaseFont", name_prim(*rng.pick(NAMES)))]);
+                    if with_widths {
+                        d.insert("FirstChar", int(32));
+                        d.insert("LastChar", int(34));
+                        d.insert("Widths", arr(vec![rand_number(rng), rand_number(rng), rand_number(rng)]));
+                        d.insert("FontDescriptor", font_descriptor(rng));
+                        d.insert("Encoding", name_prim("WinAnsiEncoding"));
+                    }
+                    out.push(SweepCase { desc: format!("Font /{} widths={}", tag, with_widths), ty: "Font", input: SweepInput::Prim(Primitive::Dictionary(d), none()) });
+                }
+            }
+            "CIDFontType0" | "CIDFontType2" => {
+                out.push(SweepCase { desc: format!("Font /{}", tag), ty: "Font", input: SweepInput::Prim(Primitive::Dictionary(cid_font(rng, tag)), none()) });
+                out.push(SweepCase { desc: format!("Font /{} (second instance)", tag), ty: "Font", input: SweepInput::Prim(Primitive::Dictionary(cid_font(rng, tag)), none()) });
+                // the same font as the descendant of a composite font, placed directly (so that it is re-written)
+                let t0 = dict_of(&[("Type", name_prim("Font")), ("Subtype", name_prim("Type0")), ("BaseFont", name_prim("Outer")), ("Encoding", name_prim("Identity-H")),
+                    ("DescendantFonts", arr(vec![Primitive::Dictionary(cid_font(rng, tag))]))]);
+                out.push(SweepCase { desc: format!("Font /Type0 with a direct /{} descendant", tag), ty: "Font", input: SweepInput::Prim(Primitive::Dictionary(t0), none()) });
+            }
+            "Type0" => {
+                for sub in ["CIDFontType0", "CIDFontType2"] {
+                    let mut objs = HashMap::new();
+                    objs.insert(50, Primitive::Dictionary(cid_font(rng, sub)));
+                    let t0 = dict_of(&[("Type", name_prim("Font")), ("Subtype", name_prim("Type0")), ("BaseFont", name_prim("Outer")), ("Encoding", name_prim("Identity-H")), ("DescendantFonts", arr(vec![rf(50)]))]);
+                    out.push(SweepCase { desc: format!("Font /Type0 with an indirect /{} descendant", sub), ty: "Font", input: SweepInput::Prim(Primitive::Dictionary(t0), objs) });
+                }
+            }
+            _ => return None,
+        },
+        "ColorSpace" => {
+            let p = match tag {
+                "DeviceGray" | "DeviceRGB" | "DeviceCMYK" => vec![name_prim(tag)],
+                "Pattern" => vec![name_prim("Pattern"), arr(vec![name_prim("Pattern")])],
+                "Indexed" => vec![arr(vec![name_prim("Indexed"), name_prim("DeviceRGB"), int(1), str_prim(&[0, 0, 0, 255, 255, 255])]), arr(vec![name_prim("Indexed"), name_prim("DeviceCMYK"), int(0), str_prim(&[1, 2, 3, 4])])],
+                "Separation" => vec![arr(vec![name_prim("Separation"), name_prim("Spot"), name_prim("DeviceCMYK"), function2()])],
+                "DeviceN" => vec![arr(vec![name_prim("DeviceN"), arr(vec![name_prim("A"), name_prim("B")]), name_prim("DeviceRGB"), function2()])],
+                "CalGray" | "CalRGB" | "CalCMYK" => vec![arr(vec![name_prim(tag), pd(&[("WhitePoint", arr(vec![num(1.0), num(1.0), num(1.0)]))])])],
+                "ICCBased" => {
+                    let mut streams = HashMap::new();
+                    streams.insert(40u64, (dict_of(&[("N", int(3))]), vec![1u8, 2, 3, 4]));
+                    let mut objs = HashMap::new();
+                    objs.insert(10u64, arr(vec![name_prim("ICCBased"), rf(40)]));
+                    out.push(SweepCase { desc: "ColorSpace [/ICCBased stream]".into(), ty: "ColorSpace", input: SweepInput::Doc { objs, streams, target: 10 } });
+                    vec![]
+                }
+                _ => return None,
+            };
+            for q in p {
+                out.push(SweepCase { desc: format!("ColorSpace {} {}", tag, show_plain(&q)), ty: "ColorSpace", input: SweepInput::Prim(q, none()) });
+            }
+        }
+        "DestView" => {
+            let tail: Vec<Vec<Primitive>> = match tag {
+                "XYZ" => vec![vec![rand_number(rng), rand_number(rng), rand_number(rng)], vec![Primitive::Null, Primitive::Null, num(0.0)], vec![int(3), Primitive::Null]],
+                "Fit" | "FitB" => vec![vec![]],
+                "FitH" | "FitV" | "FitBH" => vec![vec![rand_number(rng)], vec![int(7)]],
+                "FitR" => vec![vec![rand_number(rng), rand_number(rng), rand_number(rng), rand_number(rng)]],
+                _ => return None,
+            };
+            for t in tail {
+                for page in [rf(5), Primitive::Null] {
+                    let mut xs = vec![page, name_prim(tag)];
+                    xs.extend(t.iter().cloned());
+                    let q = arr(xs);
+                    out.push(SweepCase { desc: format!("Dest {}", show_plain(&q)), ty: "Dest", input: SweepInput::Prim(q.clone(), none()) });
+                    out.push(SweepCase { desc: format!("MaybeNamedDest {}", show_plain(&q)), ty: "MaybeNamedDest", input: SweepInput::Prim(q.clone(), none()) });
+                    out.push(SweepCase { desc: format!("Action GoTo {}", show_plain(&q)), ty: "Action", input: SweepInput::Prim(pd(&[("S", name_prim("GoTo")), ("D", q)]), none()) });
+                }
+            }
+        }
+        "Action" => match tag {
+            "GoTo" => {
+                out.push(SweepCase { desc: "Action GoTo named".into(), ty: "Action", input: SweepInput::Prim(pd(&[("S", name_prim("GoTo")), ("D", str_prim(b"chapter1"))]), none()) });
+                out.push(SweepCase { desc: "Action GoTo [page /Fit]".into(), ty: "Action", input: SweepInput::Prim(pd(&[("S", name_prim("GoTo")), ("D", arr(vec![rf(3), name_prim("Fit")]))]), none()) });
+                for other in ["URI", "Launch", "Named", "GoToR"] {
+                    out.push(SweepCase { desc: format!("Action /{}", other), ty: "Action", input: SweepInput::Prim(pd(&[("S", name_prim(other)), ("URI", str_prim(b"http://x")), ("N", name_prim("NextPage"))]), none()) });
+                }
+            }
+            _ => return None,
+        },
+        "CidToGidMap" => match tag {
+            "Identity" => {
+                out.push(SweepCase { desc: "CidToGidMap /Identity".into(), ty: "CidToGidMap", input: SweepInput::Prim(name_prim("Identity"), none()) });
+                let mut streams = HashMap::new();
+                streams.insert(10u64, (Dictionary::new(), vec![0u8, 1, 0, 2, 1, 0]));
+                out.push(SweepCase { desc: "CidToGidMap stream table".into(), ty: "CidToGidMap", input: SweepInput::Doc { objs: HashMap::new(), streams, target: 10 } });
+            }
+            _ => return None,
+        },
+        "PagesNode" => {
+            let mut objs = HashMap::new();
+            objs.insert(60u64, pd(&[("Type", name_prim("Pages")), ("Kids", arr(vec![])), ("Count", int(0))]));
+            let q = match tag {
+                "Page" => pd(&[("Type", name_prim("Page")), ("Parent", rf(60)), ("MediaBox", arr((0..4).map(|_| rand_number(rng)).collect())), ("Rotate", int(90))]),
+                "Pages" => pd(&[("Type", name_prim("Pages")), ("Kids", arr(vec![rf(61)])), ("Count", int(1)), ("Parent", rf(60))]),
+                _ => return None,
+            };
+            out.push(SweepCase { desc: format!("PagesNode /{}", tag), ty: "PagesNode", input: SweepInput::Prim(q, objs) });
+        }
+        "XObject" => {
+            let d = match tag {
+                "PS" => dict_of(&[("Type", name_prim("XObject")), ("Subtype", name_prim("PS"))]),
+                "Image" => dict_of(&[("Type", name_prim("XObject")), ("Subtype", name_prim("Image")), ("Width", int(2)), ("Height", int(1)), ("BitsPerComponent", int(8)), ("ColorSpace", name_prim("DeviceRGB"))]),
+                "Form" => dict_of(&[("Type", name_prim("XObject")), ("Subtype", name_prim("Form")), ("BBox", arr((0..4).map(|_| rand_number(rng)).collect()))]),
+                _ => return None,
+            };
+            let mut streams = HashMap::new();
+            streams.insert(10u64, (d, vec![b'q', b' ', b'Q', b' ', b'1', b'2']));
+            out.push(SweepCase { desc: format!("XObject /{}", tag), ty: "XObject", input: SweepInput::Doc { objs: HashMap::new(), streams, target: 10 } });
+        }
+        // typed values, swept in `oracle_handwritten` (filters of typed streams, the relation of a date)
+        "StreamFilter" | "TimeRel" => {}
+        _ => return None,
+    }
+    Some(out)
+}
+
+fn sweep_real(case: &SweepCase) -> (String, Option<Primitive>, Option<Primitive>, HashMap<u64, Primitive>) {
+    fn by_type<R: Resolve>(ty: &str, p: &Primitive, r: &R) -> String {
+        fn go<T: Object + ObjectWrite>(p: &Primitive, r: &impl Resolve) -> String {
+            std::panic::catch_unwind(std::panic::AssertUnwindSafe(|| {
+                let x = match T::from_primitive(p.clone(), r) {
+                    Ok(x) => x,
+                    Err(e) => return format!("rerr {} ({})", err_chain(&e), e),
+                };
+                let mut up = RecUpdater::new(CREATED_BASE);
+                let p1 = match x.to_primitive(&mut up) {
+                    Ok(p) => p,
+                    Err(_) => return "unwritable".to_string(),
+                };
+                if !up.objs.is_empty() {
+                    return "created-objects".to_string();
+                }
+                let x2 = match T::from_primitive(p1.clone(), r) {
+                    Ok(x) => x,
+                    Err(e) => return format!("rerr2 {} ({}) written form {}", err_chain(&e), e, show_plain(&p1)),
+                };
+                let mut up2 = RecUpdater::new(CREATED_BASE);
+                match x2.to_primitive(&mut up2) {
+                    Ok(p2) => format!("ok {} {}", show_plain(&p1), show_plain(&p2)),
+                    Err(e) => format!("werr2 {}", e),
+                }
+            }))
+            .unwrap_or_else(|_| "panic".into())
+        }
+        match ty {
+            "Font" => go::<pdf::font::Font>(p, r),
+            "ColorSpace" => go::<ColorSpace>(p, r),
+            "Dest" => go::<Dest>(p, r),
+            "MaybeNamedDest" => go::<MaybeNamedDest>(p, r),
+            "Action" => go::<Action>(p, r),
+            "CidToGidMap" => go::<pdf::font::CidToGidMap>(p, r),
+            "PagesNode" => go::<PagesNode>(p, r),
+            "XObject" => go::<XObject>(p, r),
+            "Pattern" => go::<Pattern>(p, r),
+            "AppearanceStreamEntry" => go::<AppearanceStreamEntry>(p, r),
+            "Encoding" => go::<pdf::encoding::Encoding>(p, r),
+            "NumberTree<i32>" => go::<NumberTree<i32>>(p, r),
+            _ => "no-dispatch".into(),
+        }
+    }
+    match &case.input {
+        SweepInput::Prim(p, objs) => {
+            let r = MemResolver::new(objs.clone(), HashMap::new(), false);
+            (by_type(case.ty, p, &r), Some(p.clone()), None, objs.clone())
+        }
+        SweepInput::Doc { objs, streams, target } => {
+            let doc = build_doc(objs, streams, Layout::SINGLE, None);
+            let res = std::panic::catch_unwind(std::panic::AssertUnwindSafe(|| {
+                let file = match pdf::file::FileOptions::uncached().load(doc.bytes.clone()) {
+                    Ok(f) => f,
+                    Err(e) => return (format!("load-failed {}", e), None),
+                };
+                let resolver = file.resolver();
+                let p = match resolver.resolve(PlainRef { id: *target, gen: 0 }) {
+                    Ok(p) => p,
+                    Err(e) => return (format!("target-unreadable {}", e), None),
+                };
+                (by_type(case.ty, &p, &resolver), Some(p))
+            }));
+            match res {
+                Ok((a, p)) => (a, p, None, objs.clone()),
+                Err(_) => ("panic".into(), None, None, objs.clone()),
+            }
+        }
+    }
+}
+
+/// value-enum variants that are not written with a tag of their own (the writer refuses them, or has no tag):
+/// a sweep case for them may answer `unwritable`
+fn writable_tag(disp: &serde_json::Value, tag: &str) -> bool {
+    // the reader arm(s) for this tag → variants; writable iff some writer arm mentions one of them
+    let mut variants: Vec<String> = vec![];
+    for a in disp["reader"].as_array().unwrap() {
+        if a["tags"].as_array().unwrap().iter().any(|t| t.as_str() == Some(tag)) {
+            variants.extend(a["variants"].as_array().unwrap().iter().map(|v| v.as_str().unwrap().to_string()));
+        }
+    }
+    disp["writer"].as_array().unwrap().iter().any(|w| {
+        let tags: Vec<&str> = w["tags"].as_array().unwrap().iter().map(|t| t.as_str().unwrap()).collect();
+        !tags.contains(&"unimplemented") && w["variants"].as_array().unwrap().iter().any(|v| variants.iter().any(|x| Some(x.as_str()) == v.as_str()))
+    })
+}
+
+/// the value enums whose dispatch the translator found and this sweep knows how to feed
+const SWEPT_ENUMS: &[&str] = &["Action", "CidToGidMap", "ColorSpace", "DestView", "FontData", "PagesNode", "StreamFilter", "TimeRel", "XObject"];
+
+fn oracle_variant_sweep(seed: u64, rounds: u64) -> Oracle {
+    let mut or = Oracle::new("c15.variant-sweep");
+    let j: serde_json::Value = serde_json::from_str(support::typed::SCHEMAS_JSON).unwrap();
+    let disp = j["dispatch"].as_array().cloned().unwrap_or_default();
+    if disp.is_empty() {
+        or.fail("sweep:no-dispatch-tables", "the translator found no hand-written tag dispatch at all", json!({"oracle": "c15.variant-sweep"}));
+    }
+    for d in &disp {
+        let en = d["value_enum"].as_str().unwrap_or("");
+        if !SWEPT_ENUMS.contains(&en) {
+            or.fail(&format!("sweep:unswept-enum:{}", en), &format!("the hand-written readers dispatch on tags into enum {} — this sweep has no inputs for it", en), json!({"oracle": "c15.variant-sweep", "enum": en}));
+            continue;
+        }
+        let mut tags: Vec<String> = vec![];
+        for a in d["reader"].as_array().unwrap() {
+            for t in a["tags"].as_array().unwrap() {
+                let t = t.as_str().unwrap().to_string();
+                if !tags.contains(&t) {
+                    tags.push(t);
+                }
+            }
+        }
+        for tag in &tags {
+            for round in 0..rounds {
+                let mut rng = Rng::derive(seed, &format!("c15.variant-sweep/{}/{}", en, tag), round);
+                let Some(cases) = sweep_inputs(en, tag, &mut rng) else {
+                    or.fail(&format!("sweep:unswept-variant:{}:{}", en, tag), &format!("reader tag {:?} of {} is not covered by the sweep", tag, en), json!({"oracle": "c15.variant-sweep", "enum": en, "tag": tag}));
+                    break;
+                };
+                let writable = writable_tag(d, tag);
+                for c in cases {
+                    let (ans, input, _, objs) = sweep_real(&c);
+                    or.case(&c.desc, true, || json!({"case": c.desc, "answer": trunc(&ans)}));
+                    or.count(&format!("{}:{}={}", en, tag, ans.split(' ').next().unwrap_or("")));
+                    let replay = json!({"oracle": "c15.variant-sweep", "seed": seed, "round": round, "enum": en, "tag": tag, "case": c.desc, "answer": trunc(&ans)});
+                    let first = ans.split(' ').next().unwrap_or("").to_string();
+                    match first.as_str() {
+                        "ok" => {
+                            let parts: Vec<&str> = ans.split(' ').collect();
+                            if parts[1] != parts[2] {
+                                or.fail(&format!("law1:{}:{}:rewrite-differs", c.ty, tag), &format!("{}: write(read(write x)) differs from write x: {} vs {}", c.desc, trunc(parts[1]), trunc(parts[2])), replay.clone());
+                            }
+                            // second law, as far as it can be asked of these types: the entries of the input
+                            // (the discriminating entry above all) are still there after read + write
+                            if let Some(inp) = &input {
+                                let p1 = parts[1];
+                                let inp_d = match inp {
+                                    Primitive::Stream(s) => Primitive::Dictionary(s.info.clone()),
+                                    x => x.clone(),
+                                };
+                                let tag_hex = hex(tag.as_bytes());
+                                let in_txt = show_plain(&inp_d);
+                                if in_txt.contains(&format!("N{}", tag_hex)) && !p1.contains(&format!("N{}", tag_hex)) {
+                                    or.fail(&format!("law2:{}:{}:tag-lost", c.ty, tag), &format!("{}: the input carries /{} but the written form does not: {} → {}", c.desc, tag, trunc(&in_txt), trunc(p1)), replay.clone());
+                                }
+                                let _ = &objs;
+                            }
+                        }
+                        "unwritable" if !writable => {}
+                        other => {
+                            or.fail(&format!("law1:{}:{}:{}", c.ty, tag, other), &format!("{}: {}", c.desc, trunc(&ans)), replay.clone());
+                        }
+                    }
+                }
+            }
+        }
+    }
+    // forms that are told apart by the kind of primitive, not by a tag (no table to extract): fixed list
+    let mut rng = Rng::derive(seed, "c15.variant-sweep/forms", 0);
+    let mut forms: Vec<SweepCase> = vec![];
+    let pat = pd(&[("PaintType", int(1)), ("TilingType", int(1)), ("BBox", arr((0..4).map(|_| rand_number(&mut rng)).collect())), ("XStep", num(1.0)), ("YStep", num(2.0)), ("Resources", rf(7))]);
+    forms.push(SweepCase { desc: "Pattern dictionary".into(), ty: "Pattern", input: SweepInput::Prim(pat, HashMap::new()) });
+    forms.push(SweepCase { desc: "AppearanceStreamEntry dictionary of states".into(), ty: "AppearanceStreamEntry", input: SweepInput::Prim(pd(&[("On", pd(&[])), ("Off", pd(&[]))]), HashMap::new()) });
+    {
+        let mut streams = HashMap::new();
+        streams.insert(10u64, (dict_of(&[("Type", name_prim("XObject")), ("Subtype", name_prim("Form")), ("BBox", arr(vec![num(0.0), num(0.0), num(1.0), num(1.0)]))]), b"q Q".to_vec()));
+        forms.push(SweepCase { desc: "AppearanceStreamEntry single form".into(), ty: "AppearanceStreamEntry", input: SweepInput::Doc { objs: HashMap::new(), streams, target: 10 } });
+    }
+    {
+        let mut streams = HashMap::new();
+        streams.insert(11u64, (dict_of(&[("Type", name_prim("XObject")), ("Subtype", name_prim("Form")), ("BBox", arr(vec![num(0.0), num(0.0), num(1.0), num(1.0)]))]), b"q Q".to_vec()));
+        let mut objs = HashMap::new();
+        objs.insert(10u64, pd(&[("On", rf(11)), ("Off", pd(&[]))]));
+        forms.push(SweepCase { desc: "AppearanceStreamEntry states referring to a form".into(), ty: "AppearanceStreamEntry", input: SweepInput::Doc { objs, streams, target: 10 } });
+    }
+    for base in ["StandardEncoding", "SymbolEncoding", "MacRomanEncoding", "WinAnsiEncoding", "MacExpertEncoding", "Identity-H", "None", "CustomEnc"] {
+        forms.push(SweepCase { desc: format!("Encoding /{}", base), ty: "Encoding", input: SweepInput::Prim(name_prim(base), HashMap::new()) });
+        forms.push(SweepCase { desc: format!("Encoding dictionary on /{}", base), ty: "Encoding", input: SweepInput::Prim(pd(&[("BaseEncoding", name_prim(base)), ("Differences", arr(vec![int(39), name_prim("A"), name_prim("B"), int(96), name_prim("Foo")]))]), HashMap::new()) });
+    }
+    forms.push(SweepCase { desc: "NumberTree leaf".into(), ty: "NumberTree<i32>", input: SweepInput::Prim(pd(&[("Nums", arr(vec![int(0), int(5), int(3), int(7)])), ("Limits", arr(vec![int(0), int(3)]))]), HashMap::new()) });
+    forms.push(SweepCase { desc: "NumberTree intermediate".into(), ty: "NumberTree<i32>", input: SweepInput::Prim(pd(&[("Kids", arr(vec![rf(8), rf(9)]))]), HashMap::new()) });
+    forms.push(SweepCase { desc: "MaybeNamedDest string".into(), ty: "MaybeNamedDest", input: SweepInput::Prim(str_prim(b"chapter1"), HashMap::new()) });
+    for c in forms {
+        let (ans, _, _, _) = sweep_real(&c);
+        or.case(&c.desc, true, || json!({"case": c.desc, "answer": trunc(&ans)}));
+        or.count(&format!("form:{}={}", c.ty, ans.split(' ').next().unwrap_or("")));
+        let parts: Vec<&str> = ans.split(' ').collect();
+        if parts[0] != "ok" || parts[1] != parts[2] {
+            or.fail(&format!("law1:{}:form:{}", c.ty, if parts[0] == "ok" { "rewrite-differs" } else { parts[0] }), &format!("{}: {}", c.desc, trunc(&ans)), json!({"oracle": "c15.variant-sweep", "seed": seed, "case": c.desc}));
+        }
+    }
+    or
+}
+
 pub fn run(driver: &Driver, seed: u64, thorough: bool, replay: Option<&serde_json::Value>) -> Report {
     let mut rep = Report::new("C15");
     let schemas = load_schemas();
@@ -782,6 +1236,7 @@ pub fn run(driver: &Driver, seed: u64, thorough: bool, replay: Option<&serde_jso
         let case = r["case"].as_u64().unwrap_or(0);
         match r["oracle"].as_str().or(r["stream"].as_str()).unwrap_or("") {
             "c15.law1.handwritten" => rep.oracles.push(oracle_handwritten(seed, case + 1, Some(case))),
+            "c15.variant-sweep" => rep.oracles.push(oracle_variant_sweep(seed, r["round"].as_u64().unwrap_or(0) + 1)),
             "c15.law" => {
                 let m = r["model"].as_str().unwrap_or("").to_string();
                 let (a, b) = oracle_laws(&schemas, seed, case + 1, Some((case, &m)));
@@ -803,5 +1258,6 @@ pub fn run(driver: &Driver, seed: u64, thorough: bool, replay: Option<&serde_jso
     rep.oracles.push(l1);
     rep.oracles.push(l2);
     rep.oracles.push(oracle_handwritten(seed, 400 * k, None));
+    rep.oracles.push(oracle_variant_sweep(seed, if thorough { 40 } else { 2 }));
     rep
 }
